@@ -238,16 +238,50 @@ theorem cgS_labels (mod fn : String) (φ : String → Option String) : ∀ (n : 
           rename_i isp ity name g f si
           simp only [cgS]
           split
-          · simp only [definedLabels_append,
-              definedLabels_instr _ _ _ (rfl : isLabel (Instr.getGlob _ : SInstr) = false),
-              definedLabels_instr _ _ _ (rfl : isLabel (Instr.copyPush _ : SInstr) = false),
-              definedLabels_instr _ _ _ (rfl : isLabel (Instr.callVal : SInstr) = false),
+          · have hD : definedLabels (if cty.isNull = true then ([] : SCode) else [(Instr.drop, sp)]) = [] := by
+              split <;> rfl
+            simp only [definedLabels_append, hD,
+              definedLabels_instr _ _ _ (rfl : isLabel (Instr.throw : SInstr) = false),
               definedLabels_nil, List.append_nil]
             exact cgArgs_lbl mod _ φ args env.lm
-          · simp only [definedLabels_append,
-              definedLabels_instr _ _ _ (rfl : isLabel (Instr.drop : SInstr) = false),
-              definedLabels_nil, List.append_nil]
-            exact cgE_lbl mod _ φ _ env.lm
+          · split
+            · simp only [definedLabels_append,
+                definedLabels_instr _ _ _ (rfl : isLabel (Instr.getGlob _ : SInstr) = false),
+                definedLabels_instr _ _ _ (rfl : isLabel (Instr.copyPush _ : SInstr) = false),
+                definedLabels_instr _ _ _ (rfl : isLabel (Instr.callVal : SInstr) = false),
+                definedLabels_nil, List.append_nil]
+              exact cgArgs_lbl mod _ φ args env.lm
+            · simp only [definedLabels_append,
+                definedLabels_instr _ _ _ (rfl : isLabel (Instr.drop : SInstr) = false),
+                definedLabels_nil, List.append_nil]
+              exact cgE_lbl mod _ φ _ env.lm
+        case tryE tsp ty t ci c =>
+          obtain ⟨csp', cty', cstmts, coe⟩ := c
+          cases coe with
+          | some _ => exact LblInv.nil mod env.lm
+          | none =>
+            simp only [Frag.depthGS, Frag.depthGBS] at hd
+            simp only [cgS]
+            have h1 := LblInv.single mod env.lm "exception_label" (by decide)
+            generalize freshLabel mod env.lm "exception_label" = exc at h1 ⊢
+            have h2 := LblInv.single mod exc.2 "after_catch_label" (by decide)
+            generalize freshLabel mod exc.2 "after_catch_label" = aft at h2 ⊢
+            have h3 := ihB [] t { env with lm := aft.2 } (by omega)
+            generalize cgBS mod fn φ [] t { env with lm := aft.2 } = ct at h3 ⊢
+            have hlm : (freshVar mod { ct.2 with scopes := [] :: ct.2.scopes } ci).2.lm = ct.2.lm := rfl
+            have h4 := ihSs loops cstmts (freshVar mod { ct.2 with scopes := [] :: ct.2.scopes } ci).2 (by omega)
+            rw [hlm] at h4
+            generalize cgSs mod fn φ loops cstmts (freshVar mod { ct.2 with scopes := [] :: ct.2.scopes } ci).2 = cc
+              at h4 ⊢
+            refine (((h1.append h2).append h3).append h4).perm (perm_of_count ?_)
+            intro a
+            simp only [definedLabels_append,
+              definedLabels_instr _ _ _ (rfl : isLabel (Instr.setTry _ _ : SInstr) = false),
+              definedLabels_instr _ _ _ (rfl : isLabel (Instr.popTry : SInstr) = false),
+              definedLabels_instr _ _ _ (rfl : isLabel (Instr.jump _ : SInstr) = false),
+              definedLabels_instr _ _ _ (rfl : isLabel (Instr.setVar _ : SInstr) = false),
+              definedLabels_label, definedLabels_nil, List.count_append, List.count_cons, List.count_nil]
+            omega
         all_goals exact LblInv.nil mod env.lm
       case whileS sp c body =>
         simp only [Frag.depthGS] at hd
